@@ -146,6 +146,11 @@ def run_case(case, rec):
                     rec.done([case['seed'], distribute, smoothing], nontrivial=convergent or ambiguous or not g.acyclic(),
                              sample={'nodes': n, 'edges': edges, 'corpus': dict(counts), 'distribute_weight': distribute,
                                      'smoothing': smoothing})
+            # documented defaults: distribute_weight=True, smoothing=1.0
+            rec.event('default.checked')
+            if wn.ic.compute(list(tokens), w) != wn.ic.compute(list(tokens), w, distribute_weight=True, smoothing=1.0):
+                rec.violation('ic-defaults', f'graph n={n} edges={edges} corpus={dict(counts)}: compute() without options differs from '
+                              'distribute_weight=True, smoothing=1.0')
             if convergent:
                 rec.event('convergent.cases')
         check_load(rec, r, work)
